@@ -73,7 +73,8 @@ Record slotted := mkSlotted {
   sl_funcs : list (prov * list nat);   (* provider with its must-zero list *)
   sl_down : list (nat * option nat);
   sl_up : list (nat * option nat);
-  sl_count : nat
+  sl_count : nat;
+  sl_down0 : list (nat * option nat)   (* the down map when only the static part has been allocated *)
 }.
 
 (* static part: i = invokeIndex-1 downto 0 *)
@@ -111,7 +112,7 @@ Definition allocate_slots (funcs : list prov) (invokeIndex : nat) : slotted :=
   let post := skipn invokeIndex funcs in
   let (sdone, st) := static_slots (rev pre) (keys, 0) in
   match run_slots (rev post) (fst st) keys (snd st) with
-  | (rdone, dn, up, cnt) => mkSlotted (rev sdone ++ rev rdone) dn up cnt
+  | (rdone, dn, up, cnt) => mkSlotted (rev sdone ++ rev rdone) dn up cnt (fst st)
   end.
 
 (* ---------- S9: compiled providers ---------- *)
